@@ -12,6 +12,7 @@ from __future__ import annotations
 
 import ast
 import concurrent.futures as cf
+import contextlib
 import copy
 import inspect
 import json
@@ -49,6 +50,7 @@ THEOREMS = [
     "C19.parse_argparse_always_fails",
     "C19.infer_argparse_fails",
     "C19.infer_json_fails",
+    "C19.infer_class_any_base",
     "C19.infer_imports_none_crashes",
     "C19.two_import_statements_crash",
     "C19.sqlalchemy_name_ne_all",
@@ -116,28 +118,50 @@ def impl_kwargs(case):
     return {"ok": {"keys": sorted(kw), "name": nm, "call": call}}
 
 
-NODE_SRC = {
-    ("cls", True): "class A(Base):\n    pass",
-    ("cls", False): "class A(object):\n    pass",
-    ("fn", False, True): "def f(argument_parser):\n    return argument_parser",
-    ("fn", False, False): "def f(a, b=2):\n    return a",
-    ("fn", True, True): "async def f(argument_parser):\n    return argument_parser",
-    ("fn", True, False): "async def f(a):\n    return a",
-}
+def node_desc(n):
+    """What `infer` / `file_to_input_mapping` can see of a top-level statement, read with stdlib ast only (the model's NodeKind)."""
+    if isinstance(n, ast.ClassDef):
+        return {"k": "cls", "base_ids": [b.id for b in n.bases if isinstance(b, ast.Name)]}
+    if isinstance(n, (ast.FunctionDef, ast.AsyncFunctionDef)):
+        return {"k": "fn", "async": isinstance(n, ast.AsyncFunctionDef), "args": [a.arg for a in n.args.args]}
+    if isinstance(n, (ast.Assign, ast.AnnAssign)):
+        return {"k": "assign"}
+    return {"k": "other"}
 
 
-def node_key(d):
-    return ("cls", bool(d.get("base"))) if d["k"] == "cls" else ("fn", bool(d.get("async")), bool(d.get("ap")))
+PARSER_BASES = ["Base", "TimestampMixin", "mixins.Timestamped", "Generic[T]", "object", "models.Base"]
+PARSER_FNS = ["def f():\n    pass", "def f(a, b=2):\n    return a", "def f(argument_parser):\n    return argument_parser", "def f(a, argument_parser):\n    pass",
+              "def f(argument_parser, b):\n    pass", "def f(self, argument_parser):\n    pass", "def f(*, argument_parser):\n    pass",
+              "def f(a, /, argument_parser):\n    pass", "def f(argument_parser, /):\n    pass", "def f(*argument_parser):\n    pass",
+              "@cache\ndef f(a, argument_parser=None):\n    pass"]
+
+
+def parser_sources():
+    import itertools
+
+    out = []
+    for k in range(4):
+        for bs in itertools.permutations(PARSER_BASES, k):
+            out.append("class A%s:\n    pass" % ("(%s)" % ", ".join(bs) if bs else ""))
+    out += ["class A(TimestampMixin, Base, metaclass=ABCMeta):\n    pass", "class A(metaclass=Base):\n    pass", "@dataclass\nclass A(Mixin, Base):\n    pass",
+            "class A(Base()):\n    pass", "class A(*bases, Base):\n    pass"]
+    out += PARSER_FNS + ["async " + f if f.startswith("def") else f.replace("def ", "async def ") for f in PARSER_FNS]
+    return out
 
 
 def impl_parser(case):
     _cdd()
     from cdd.shared.parse.utils.parser_utils import get_parser
 
-    parse, nd = case
-    node = {"$id": "x", "type": "object", "properties": {}} if nd["k"] == "json" else ast.parse(NODE_SRC[node_key(nd)]).body[0]
+    parse, src = case
+    node = {"$id": "x", "type": "object", "properties": {}} if src is None else ast.parse(src).body[0]
     try:
-        return {"ok": get_parser(node, parse).__name__}
+        fn = get_parser(node, parse)
+        name = getattr(fn, "__name__", None)
+        if name is None and hasattr(fn, "func"):
+            # cdd.pydantic.parse.pydantic is a functools.partial of the class parser
+            name = {"class_": "pydantic"}.get(fn.func.__name__, fn.func.__name__)
+        return {"ok": name}
     except Exception as e:  # noqa
         return {"error": exc(e)}
 
@@ -313,11 +337,11 @@ def component_ops(chk: core.Check):
     cases += [(r.choice(EMITS), gen_tpl(r), r.choice(ENTRY_NAMES + ["infer"])) for _ in range(300 if q else 3000)]
     for c, i in zip(cases, map(impl_kwargs, cases)):
         add("kwargs", {"op": "c19.kwargs", "emit": c[0], "tpl": c[1], "name": c[2]}, i)
-    # get_parser / infer
-    nodes = [{"k": "cls", "base": b} for b in (True, False)] + [{"k": "fn", "async": a, "ap": p} for a in (True, False) for p in (True, False)] + [{"k": "json"}]
-    cases = [(p, n) for p in PARSES for n in nodes]
-    for c, i in zip(cases, map(impl_parser, cases)):
-        add("parser", {"op": "c19.parser", "parse": c[0], "node": c[1]}, i)
+    # get_parser / infer: classes with 0-3 bases in every order (Base first / middle / last, dotted, subscripted), functions whose
+    # `argument_parser` parameter stands anywhere (or is keyword-only / positional-only / *args), async variants, a JSON dict
+    cases = [(p, src) for p in PARSES for src in parser_sources() + [None]]
+    for c, i in zip(cases, core.pmap(impl_parser, cases, chunksize=128)):
+        add("parser", {"op": "c19.parser", "parse": c[0], "node": {"k": "json"} if c[1] is None else node_desc(ast.parse(c[1]).body[0])}, i)
     # file_to_input_mapping
     cases = []
     for _ in range(120 if q else 1200):
@@ -487,31 +511,99 @@ def make_ir(r, name, kinds=("scalar", "scalar", "optional", "literal", "list", "
     return {"name": name, "doc": r.choice(["Summary line.", "Summary line.\n\nLonger description here."]), "params": params, "returns": ret, "type": "static"}
 
 
-def entry_source(ekind, ir):
-    """A *generated* class / function / argparse function: the real emitters' output for a random interface."""
+PLAIN_BASES = ["object", "BaseModel", "Generic[T]", "mixins.Timestamped", "TimestampMixin", "abc.ABC", "Serializable"]
+SQLA_MIXINS = ["TimestampMixin", "mixins.Timestamped", "Serializable", "Generic[T]", "AuditMixin"]
+CLASS_DECOS = ["dataclass", "dataclass(frozen=True)", "total_ordering"]
+FN_DECOS = ["cache", "lru_cache(maxsize=None)", "deprecated"]
+SQLA_TYPES = ("scalar", "scalar", "optional", "literal")
+
+
+def _expr(src):
+    return ast.parse(src, mode="eval").body
+
+
+def entry_source(ekind, ir, r=None):
+    """A *generated* class / function / argparse function / SQLAlchemy class / hybrid class / Table: the real emitters' output for a random
+    interface, with the header a user would give it (bases and mixins in any order, keywords, decorators, `async`)."""
     _cdd()
     import cdd.argparse_function.emit
     import cdd.class_.emit
     import cdd.function.emit
+    import cdd.sqlalchemy.emit
     from collections import OrderedDict
 
     ir = copy.deepcopy(ir)
     ir["params"] = OrderedDict(ir["params"])
     if ir["returns"]:
         ir["returns"] = OrderedDict(ir["returns"])
+    nm = ir["name"]
     if ekind == "class":
-        node = cdd.class_.emit.class_(ir, class_name=ir["name"], emit_default_doc=False)
-    elif ekind == "function":
-        node = cdd.function.emit.function(ir, function_name=ir["name"], function_type="static", emit_default_doc=False)
+        node = cdd.class_.emit.class_(ir, class_name=nm, emit_default_doc=False)
+        if r is not None and r.random() < 0.7:
+            node.bases = [_expr(b) for b in r.sample(PLAIN_BASES, r.randint(0, 3))]
+            if r.random() < 0.15:
+                node.keywords = [ast.keyword(arg="metaclass", value=_expr("ABCMeta"))]
+    elif ekind in ("sqlalchemy", "hybrid"):
+        ir["returns"] = None
+        emitter = cdd.sqlalchemy.emit.sqlalchemy if ekind == "sqlalchemy" else cdd.sqlalchemy.emit.sqlalchemy_hybrid
+        node = emitter(ir, class_name=nm, table_name=nm.lower() + "_tbl", emit_default_doc=False)
+        bases = r.sample(SQLA_MIXINS, r.randint(0, 2)) if r is not None and r.random() < 0.75 else []
+        bases.insert(r.randint(0, len(bases)) if r is not None else 0, "Base")  # Base first / middle / last
+        node.bases = [_expr(b) for b in bases]
+    elif ekind == "table":
+        ir["returns"] = None
+        node = cdd.sqlalchemy.emit.sqlalchemy_table(ir, name=nm, table_name=nm, emit_default_doc=False)
+    elif ekind in ("function", "async_function"):
+        node = cdd.function.emit.function(ir, function_name=nm, function_type="static", emit_default_doc=False)
+        if ekind == "async_function":
+            node = ast.AsyncFunctionDef(**{f: getattr(node, f) for f in ("name", "args", "body", "decorator_list", "returns")}, type_comment=None, type_params=[])
     else:
-        node = cdd.argparse_function.emit.argparse_function(ir, function_name=ir["name"], emit_default_doc=False)
+        node = cdd.argparse_function.emit.argparse_function(ir, function_name=nm, emit_default_doc=False)
+    if r is not None and r.random() < 0.2 and isinstance(node, (ast.ClassDef, ast.FunctionDef, ast.AsyncFunctionDef)):
+        node.decorator_list = [_expr(r.choice(CLASS_DECOS if isinstance(node, ast.ClassDef) else FN_DECOS))]
     src = ast.unparse(ast.fix_missing_locations(node))
     ast.parse(src)
     return src
 
 
+def true_kind(n):
+    """The kind of a source entry by an independent reading (stdlib ast): a class is SQLAlchemy when ANY plain-name base is `Base`
+    (hybrid when it assigns `__table__`), a function is an argparse function when a positional parameter is `argument_parser`."""
+    if isinstance(n, ast.ClassDef):
+        if any(isinstance(b, ast.Name) and b.id == "Base" for b in n.bases):
+            hyb = any(isinstance(x, ast.Assign) and any(isinstance(t, ast.Name) and t.id == "__table__" for t in x.targets) for x in n.body)
+            return "hybrid" if hyb else "sqlalchemy"
+        return "class"
+    if isinstance(n, (ast.FunctionDef, ast.AsyncFunctionDef)):
+        return "argparse" if any(a.arg == "argument_parser" for a in n.args.args) else "function"
+    if isinstance(n, (ast.Assign, ast.AnnAssign)) and isinstance(n.value, ast.Call) and isinstance(n.value.func, ast.Name) and n.value.func.id == "Table":
+        return "table"
+    return None
+
+
+# node classes `file_to_input_mapping` selects per --parse (kind2instance_type), and the source kinds each parser is meant for
+SELECTS = {"class": (ast.ClassDef,), "pydantic": (ast.ClassDef,), "sqlalchemy": (ast.ClassDef,), "sqlalchemy_hybrid": (ast.ClassDef,),
+           "function": (ast.FunctionDef, ast.AsyncFunctionDef), "argparse": (ast.FunctionDef,), "sqlalchemy_table": (ast.Assign, ast.AnnAssign),
+           "infer": (ast.ClassDef, ast.FunctionDef, ast.AsyncFunctionDef, ast.Assign, ast.AnnAssign)}
+MEANT_FOR = {"class": {"class"}, "pydantic": {"class"}, "sqlalchemy": {"sqlalchemy"}, "sqlalchemy_hybrid": {"hybrid"}, "function": {"function"},
+             "argparse": {"argparse"}, "sqlalchemy_table": {"table"}, "infer": {"class", "sqlalchemy", "hybrid", "function", "argparse", "table"}}
+
+
+def selected_entries(src, parse):
+    """[(key, true kind, node)] of the statements --parse selects, or None when the parser is not meant for one of them (e.g. `--parse class`
+    on a module that holds a SQLAlchemy class): such a configuration reads an entry as something it is not and is outside the quantifier."""
+    out = []
+    for n in ast.parse(src).body:
+        if isinstance(n, SELECTS[parse]):
+            tk = true_kind(n)
+            if tk is None or tk not in MEANT_FOR[parse]:
+                return None
+            out.append((getattr(n, "name", None) or (sym_name(n) or ""), tk, n))
+    return out
+
+
 def gen_cli_case(r, k):
-    kind = r.choice(["class", "class", "class", "function", "function", "argparse", "json", "mixed"])
+    kind = r.choice(["class", "class", "class", "function", "function", "argparse", "json", "mixed", "sqlalchemy", "sqlalchemy", "hybrid", "table", "zoo", "zoo"])
     n = 1 if r.random() < 0.35 else r.randint(2, 5)
     case = {"id": k, "kind": kind, "emit": r.choice(EMITS), "tpl": r.choice(CLI_TEMPLATES), "infer": r.random() < 0.4,
             "prepend": r.choice(PREPENDS), "imports_file": r.choice(IMPORT_FILES), "exists": r.random() < 0.2, "phase": 0, "json_basename": None}
@@ -542,12 +634,18 @@ def gen_cli_case(r, k):
     mixed_parse = r.choice(["infer", "class", "function"])
     # an argparse function read with `--parse function` is a different interface (one parameter `argument_parser`): keep it out of that mix
     mixed_kinds = ["class", "function"] if mixed_parse == "function" else ["class", "function", "argparse"]
-    ekinds = [kind if kind != "mixed" else r.choice(mixed_kinds) for _ in names]
+    if kind == "zoo":
+        # entries whose (inferred) kind differs within one module: class + function + SQLAlchemy class + hybrid + Table + async
+        ekinds = [r.choice(["class", "class", "function", "function", "sqlalchemy", "sqlalchemy", "hybrid", "table", "async_function", "argparse"]) for _ in names]
+    elif kind == "function":
+        ekinds = ["async_function" if r.random() < 0.12 else "function" for _ in names]
+    else:
+        ekinds = [kind if kind != "mixed" else r.choice(mixed_kinds) for _ in names]
     srcs = []
     for nm, ek in zip(names, ekinds):
         for _ in range(20):
             try:
-                srcs.append(entry_source(ek, make_ir(r, nm)))
+                srcs.append(entry_source(ek, make_ir(r, nm, kinds=SQLA_TYPES) if ek in ("sqlalchemy", "hybrid", "table") else make_ir(r, nm), r))
                 break
             except Exception:  # noqa  (an interface the emitter of the *input* format cannot write: draw another)
                 continue
@@ -555,24 +653,33 @@ def gen_cli_case(r, k):
             raise core.HarnessError("could not generate an input entry of kind %s" % ek)
     head = r.choice(["", "from typing import Dict, List, Literal, Optional, Union\n\n\n", '"""Input module"""\n\nimport os\n\n\n'])
     case["input_text"] = head + "\n\n\n".join(srcs) + "\n"
-    case["parse"] = mixed_parse if kind == "mixed" else r.choice([kind, kind, "infer"])
+    explicit = {"class": ["class", "class", "pydantic"], "function": ["function"], "argparse": ["argparse"], "sqlalchemy": ["sqlalchemy"], "hybrid": ["sqlalchemy_hybrid"],
+                "table": ["sqlalchemy_table"], "mixed": [mixed_parse], "zoo": [p for p in PARSES if p not in ("json_schema", "infer")]}[kind]
+    case["parse"] = r.choice(explicit) if r.random() < (0.4 if kind == "zoo" else 0.6) else "infer"
     if not oracle_entries(case):
-        case["parse"] = "infer"  # the quantifier starts at one entry
+        case["parse"] = "infer"  # the quantifier starts at one entry, read by the parser meant for it
     return case
 
 
+def twin_of(case):
+    """The same configuration with the explicit --parse kind that `infer` should arrive at (None when there is no single such kind)."""
+    if case["parse"] != "infer" or case["exists"] or case.get("out_spelling") or case.get("json_basename"):
+        return None
+    ents = oracle_entries(case)
+    kinds = {tk for _, tk, _ in ents}
+    if len(kinds) != 1:
+        return None
+    p = {"class": "class", "sqlalchemy": "sqlalchemy", "hybrid": "sqlalchemy_hybrid", "function": "function"}.get(next(iter(kinds)))
+    if p is None:
+        return None
+    t = dict(case, parse=p)
+    if [e[0] for e in (oracle_entries(t) or [])] != [e[0] for e in ents]:
+        return None
+    return t
+
+
 def body_desc(src):
-    out = []
-    for n in ast.parse(src).body:
-        if isinstance(n, ast.ClassDef):
-            out.append({"name": n.name, "node": {"k": "cls", "base": any(isinstance(b, ast.Name) and b.id == "Base" for b in n.bases)}})
-        elif isinstance(n, (ast.FunctionDef, ast.AsyncFunctionDef)):
-            out.append({"name": n.name, "node": {"k": "fn", "async": isinstance(n, ast.AsyncFunctionDef), "ap": any(a.arg == "argument_parser" for a in n.args.args)}})
-        elif isinstance(n, (ast.Assign, ast.AnnAssign)):
-            out.append({"name": "", "node": {"k": "assign"}})
-        else:
-            out.append({"name": "", "node": {"k": "other"}})
-    return out
+    return [{"name": getattr(n, "name", ""), "node": node_desc(n)} for n in ast.parse(src).body]
 
 
 def compute_world(case, inp_path):
@@ -625,6 +732,12 @@ def compute_world(case, inp_path):
                 w["improper"] = False
         else:
             w["json_id"] = out.get("$id")
+            try:
+                from cdd.shared.pure_utils import SetEncoder
+
+                json.dumps(out, cls=SetEncoder)
+            except TypeError:
+                w["json_not_serialisable"] = True  # the IR carries an AST node (e.g. server_default=Identity()): json.dump fails after the file is open
     return world
 
 
@@ -686,6 +799,9 @@ def run_cli_case(case):
         err_lines = [l for l in p.stderr.split("\n") if l.strip()]
         last = err_lines[-1] if err_lines else ""
         m = re.match(r"^([A-Za-z_][\w.]*)(?::\s*(.*))?$", last)
+        if p.returncode < 0 or (p.returncode != 0 and not m) or (m and p.returncode and m.group(1).split(".")[-1] in ("MemoryError", "KeyboardInterrupt")):
+            # killed by a signal / out of memory / no Python exception on stderr: the machine, not `gen` (exit 2, never a verdict)
+            return {"timeout": True, "why": "rc=%s, stderr ends with %r" % (p.returncode, last[:200])}
         res = {"rc": p.returncode, "exc": (m.group(1).split(".")[-1] if m and p.returncode else None), "msg": (m.group(2) or "" if m else last)[:160],
                "stderr_tail": "\n".join(err_lines[-6:])[-800:], "out": Path(out).read_text() if os.path.isfile(out) else None,
                "other_files": sorted(f for f in os.listdir(d) if f not in (os.path.basename(inp), os.path.basename(out), "imps.py")),
@@ -709,7 +825,7 @@ def gen_request(case, res):
     texts = [w.get("stmt_src", "") for w in res["world"]]
     rq = {"op": "c19.gen", "tpl": case["tpl"], "parse": case["parse"], "emit": case["emit"], "infer_imports": case["infer"],
           "prepend": prepend_json(case["prepend"]), "file_imports": file_imports_json(case["imports_file"]), "tables": tables_for(texts),
-          "world": [{k: v for k, v in w.items() if k in ("name", "ir_name", "parse_error", "emit_error", "stmt")} for w in res["world"]],
+          "world": [{k: v for k, v in w.items() if k in ("name", "ir_name", "parse_error", "emit_error", "stmt", "json_not_serialisable")} for w in res["world"]],
           "exists": res["fs"]["isfile"], "phase": case.get("phase", 0), "output": case.get("out_spelling") or "out"}
     if res["fs"]["open_error"]:
         rq["open_error"] = res["fs"]["open_error"]
@@ -756,11 +872,14 @@ def model_view(case, res, mo):
             kinds.append("append")
         else:
             kinds.append(ev[0])
+    raises = [k for k in kinds if k.startswith("raise:")]
+    if wrote and raises:
+        kinds = ["isfile", raises[-1]]  # json.dump failed half-way: the process ends with the exception, the file is already changed
     v = {"trace": kinds, "modified": [res["resolved_out"]] if wrote else []}
     if bad_path:
         v["path_not_the_argument"] = bad_path
-    if wrote and not (case["exists"] or case.get("out_spelling")) and "error" not in mo["run"]:
-        v["run"] = mo["run"]
+    if wrote and not raises and not (case["exists"] or case.get("out_spelling")) and "error" not in mo["run"]:
+        v["run"] = {k: x for k, x in mo["run"].items() if k != "dump_fails"}
     return v
 
 
@@ -775,25 +894,90 @@ def sym_name(n):
 
 
 def oracle_entries(case):
-    """The entries of the input mapping, by the documented meaning of --parse (computed without cdd)."""
+    """The entries of the input mapping, by the documented meaning of --parse (computed without cdd): [(key, true kind, node)];
+    empty when nothing is selected or when the chosen parser is not meant for a selected entry."""
     if case.get("json_basename"):
         return [(case["json_basename"], "json", None)]
-    out = []
-    for n in ast.parse(case["input_text"]).body:
-        if isinstance(n, ast.ClassDef):
-            k = "class"
-        elif isinstance(n, (ast.FunctionDef, ast.AsyncFunctionDef)):
-            k = "argparse" if any(a.arg == "argument_parser" for a in n.args.args) else "function"
-        else:
-            continue
-        p = case["parse"]
-        if p == "infer" or p == k or (p in ("function", "argparse") and k in ("function", "argparse")):
-            out.append((n.name, k, n))
-    return out
+    return selected_entries(case["input_text"], case["parse"]) or []
+
+
+SQL2CAT = {"Integer": "int", "BigInteger": "int", "SmallInteger": "int", "String": "str", "Text": "str", "Unicode": "str", "Float": "float", "Numeric": "float",
+           "Boolean": "bool", "Enum": "literal"}
+JSON2CAT = {"integer": "int", "number": "float", "string": "str", "boolean": "bool"}
+
+
+def pycat(t):
+    """scalar category of a Python type string: int | float | str | bool | literal | other (Optional[...] is looked through)"""
+    if not isinstance(t, str):
+        return "other"
+    t = t.strip()
+    while t.startswith("Optional[") and t.endswith("]"):
+        t = t[9:-1].strip()
+    if t in ("int", "float", "str", "bool"):
+        return t
+    return "literal" if t.startswith("Literal[") else "other"
+
+
+def _column(call, named):
+    args = list(call.args)
+    name = None
+    if named and args and isinstance(args[0], ast.Constant) and isinstance(args[0].value, str):
+        name = args.pop(0).value
+    t = args[0] if args else None
+    tn = t.id if isinstance(t, ast.Name) else (t.func.id if isinstance(t, ast.Call) and isinstance(t.func, ast.Name) else None)
+    return name, SQL2CAT.get(tn, "other")
+
+
+def _is_call(x, fname):
+    return isinstance(x, ast.Call) and isinstance(x.func, ast.Name) and x.func.id == fname
+
+
+def read_source(tk, node, case):
+    """Independent reading of a source entry with stdlib `ast` / `json` only: parameter names in order (a return entry is `return_type`, last)
+    and the scalar category of each type.  SQLAlchemy classes: the `Column(...)` assignments, their first type argument."""
+    names, cats = [], {}
+    if tk == "json":
+        d = json.loads(case["input_text"])
+        for k, v in d.get("properties", {}).items():
+            names.append(k)
+            cats[k] = "literal" if ("enum" in v or "pattern" in v) else JSON2CAT.get(v.get("type"), "other")
+        return names, cats
+    if tk == "class":
+        ret = False
+        for x in node.body:
+            if isinstance(x, ast.AnnAssign) and isinstance(x.target, ast.Name):
+                if x.target.id == "return_type":
+                    ret = True
+                    continue
+                names.append(x.target.id)
+                cats[x.target.id] = pycat(ast.unparse(x.annotation))
+        return names + (["return_type"] if ret else []), cats
+    if tk == "sqlalchemy":
+        for x in node.body:
+            if isinstance(x, ast.Assign) and len(x.targets) == 1 and isinstance(x.targets[0], ast.Name) and _is_call(x.value, "Column"):
+                names.append(x.targets[0].id)
+                cats[x.targets[0].id] = _column(x.value, False)[1]
+        return names, cats
+    if tk in ("hybrid", "table"):
+        call = node.value if tk == "table" else next(x.value for x in node.body if isinstance(x, ast.Assign) and any(isinstance(t, ast.Name) and t.id == "__table__" for t in x.targets))
+        for a in call.args[2:]:
+            if _is_call(a, "Column"):
+                nm, cat = _column(a, True)
+                names.append(nm)
+                cats[nm] = cat
+        return names, cats
+    if tk == "function":
+        a = node.args
+        for x in a.posonlyargs + a.args + a.kwonlyargs:
+            names.append(x.arg)
+            cats[x.arg] = pycat(ast.unparse(x.annotation)) if x.annotation is not None else "other"
+        return names + (["return_type"] if node.returns is not None else []), cats
+    # argparse functions: no CLI path reads them (--parse argparse and infer both fail): cdd's own reading
+    return interface_of("argparse", node)
 
 
 def interface_of(kind, node):
-    """Parameter names (in order) of a symbol, read by cdd's own parser for that format."""
+    """Parameter names (in order) and type categories of a symbol, read by cdd's own parser for that format."""
     import cdd.argparse_function.parse
     import cdd.class_.parse
     import cdd.function.parse
@@ -805,9 +989,26 @@ def interface_of(kind, node):
           "sqlalchemy_hybrid": cdd.sqlalchemy.parse.sqlalchemy_hybrid, "sqlalchemy_table": cdd.sqlalchemy.parse.sqlalchemy_table}[kind]
     ir = fn(copy.deepcopy(node))
     names = list(ir.get("params") or {})
+    cats = {k: pycat(v.get("typ")) for k, v in (ir.get("params") or {}).items()}
     if ir.get("returns"):
         names.append("return_type")
-    return names
+    return names, cats
+
+
+def compare_interface(fail, what, via, emit, src, out):
+    """names in order (modulo the primary key `id` the SQLAlchemy emitters add), then the scalar category of every shared parameter"""
+    (src_if, src_cat), (out_if, out_cat) = src, out
+    if emit in SQL and "id" in out_if and "id" not in src_if:
+        out_if = [x for x in out_if if x != "id"]  # ensure_has_primary_key: the stated normalisation of C05
+    if src_if != out_if:
+        fail("interface", "%s has parameters %s, source entry has %s" % (what, out_if, src_if), via=via,
+             lost=",".join(x for x in src_if if x not in out_if), gained=",".join(x for x in out_if if x not in src_if))
+        return
+    for k in src_if:
+        a, b = src_cat.get(k, "other"), out_cat.get(k, "other")
+        if a != "other" and b != a:
+            fail("interface-type", "%s: parameter %r is %s in the source entry and %s in the generated symbol" % (what, k, a, b), via=via, src_type=a, out_type=b)
+            return
 
 
 def syntax_cause(case, res):
@@ -860,6 +1061,8 @@ def oracle(case, res):
             elif w.get("emit_error") == res["exc"]:
                 stage = "entry-emitter"
         msg = "" if res["exc"] == "NotImplementedError" or (stage != "gen" and res["exc"] == "KeyError") else res["msg"]
+        if res["exc"] == "NotImplementedError":  # infer(node) on something it does not know: root-cause marker = what it was handed
+            cause = "AsyncFunctionDef" if "AsyncFunctionDef" in res["msg"] else ("dict" if res["msg"].lstrip().startswith("{") else "other")
         fail("crash", "gen exited %s: %s: %s" % (res["rc"], res["exc"], res["msg"]), exc=res["exc"], msg=msg, cause=cause, stage=stage)
         if res["out"] is not None:
             fail("partial-write", "gen failed but left an output file")
@@ -884,13 +1087,16 @@ def oracle(case, res):
             if w.isidentifier() and not keyword.iskeyword(w) and s.get("$id") != w:
                 fail("symbol-not-named-by-template", "$id %r, template gives %r" % (s.get("$id"), w), cause="non-ascii-identifier" if not ASCII_ID.match(w) else "other")
             try:
-                src_if = interface_of(k, json.loads(case["input_text"]) if k == "json" else node)
-                out_if = interface_of("json_schema", s)
-                if src_if != out_if:
-                    fail("interface", "schema %r has parameters %s, source entry %s" % (s.get("$id"), out_if, src_if), via="%s->json_schema" % k,
-                         lost=",".join(x for x in src_if if x not in out_if), gained=",".join(x for x in out_if if x not in src_if))
+                src = read_source(k, node, case)
+            except Exception as e:  # noqa
+                fail("source-unreadable", "source entry %r cannot be read: %s" % (n, exc(e)), exc=exc(e))
+                continue
+            try:
+                out = interface_of("json_schema", s)
             except Exception as e:  # noqa
                 fail("parse-back", "schema %r cannot be read back: %s" % (s.get("$id"), exc(e)), exc=exc(e))
+                continue
+            compare_interface(fail, "schema %r" % s.get("$id"), "%s->json_schema" % k, "json_schema", src, out)
         return fails
     try:
         compile(res["out"], "out.py", "exec")
@@ -932,20 +1138,16 @@ def oracle(case, res):
     # each symbol, parsed back, has the interface of its source entry
     for node, (n, k, src_node) in zip(gen_syms, entries):
         try:
-            src_if = interface_of(k if case["parse"] == "infer" or k == "json" else case["parse"], json.loads(case["input_text"]) if k == "json" else src_node)
+            src = read_source(k, src_node, case)
         except Exception as e:  # noqa
-            fail("source-unreadable", "source entry %r cannot be parsed: %s" % (n, exc(e)), exc=exc(e))
+            fail("source-unreadable", "source entry %r cannot be read: %s" % (n, exc(e)), exc=exc(e))
             continue
         try:
-            out_if = interface_of(case["emit"], node)
+            out = interface_of(case["emit"], node)
         except Exception as e:  # noqa
             fail("parse-back", "generated symbol %r cannot be read back: %s" % (sym_name(node), exc(e)), exc=exc(e))
             continue
-        if case["emit"] in SQL and "id" in out_if and "id" not in src_if:
-            out_if = [x for x in out_if if x != "id"]  # ensure_has_primary_key: the stated normalisation of C05
-        if src_if != out_if:
-            fail("interface", "symbol %r has parameters %s, source entry %r has %s" % (sym_name(node), out_if, n, src_if), via="%s->%s" % (k, case["emit"]),
-                 lost=",".join(x for x in src_if if x not in out_if), gained=",".join(x for x in out_if if x not in src_if))
+        compare_interface(fail, "symbol %r (from %r)" % (sym_name(node), n), "%s->%s" % (k, case["emit"]), case["emit"], src, out)
     # every typing / SQLAlchemy name used is imported when inference is on
     if case["infer"]:
         from cdd.shared.ast_utils import DEFAULT_MODULES_TO_ALL
@@ -981,6 +1183,18 @@ W_JSON = json.dumps({"$id": "https://example.com/alpha.schema.json", "$schema": 
                      "type": "object", "properties": {"a": {"default": 5, "description": "the a", "type": "integer"}}, "required": ["a"]})
 
 
+W_TABLE = 'users = Table("users", metadata, Column("id", Integer, primary_key=True), Column("name", String, comment="the name"), keep_existing=True)\n'
+W_ASYNC = 'async def fetch(a: int = 5) -> int:\n    """\n    Fetch doc\n\n    :param a: the a\n\n    :return: the result\n    """\n    return a\n'
+W_SQLA_ID = ('class Alpha(Base):\n    """\n    Alpha doc\n    """\n\n    __tablename__ = "alpha"\n\n'
+             '    a = Column(Integer, comment="the a", default=5, nullable=False)\n    id = Column(Integer, primary_key=True, server_default=Identity())\n')
+
+
+def _group(bases):
+    return ("class Group(%s):\n    \"\"\"\n    A group of users\n    \"\"\"\n\n    __tablename__ = \"group\"\n\n"
+            "    name = Column(String, comment=\"name of the group\", nullable=False, primary_key=True)\n"
+            "    size = Column(Integer, comment=\"number of members\", default=5, nullable=False)\n" % bases)
+
+
 def _w(text, **kw):
     c = {"kind": "class", "emit": "class", "tpl": "{name}Config", "infer": False, "prepend": None, "imports_file": None, "exists": False, "parse": "class",
          "input_text": text, "json_basename": None, "phase": 0, "out_spelling": None}
@@ -1002,6 +1216,14 @@ def witness_cases():
         _w(W_CLASS, exists=True),                                                 # control: the guard
         _w(W_CLASS, exists=True, emit="json_schema"),
     ] + [_w(W_CLASS, exists=True, out_spelling=sp, emit=e) for sp, _ in OUT_SPELLINGS for e in ("class", "json_schema")] + [
+    ] + [
+        # the fixed corner: a declarative class whose mixin is written before `Base` (and the other orders), read by `infer` and by --parse sqlalchemy
+        _w(_group(b), kind="sqlalchemy", parse="infer", emit=e, tpl="{name}", _twin=True)
+        for b in ("TimestampMixin, Base", "Base", "Base, TimestampMixin", "mixins.Timestamped, Base", "AuditMixin, Base, Generic[T]") for e in ("class", "json_schema")
+    ] + [
+        _w(W_TABLE, kind="table", parse="infer"), _w(W_TABLE, kind="table", parse="sqlalchemy_table"),
+        _w(W_ASYNC, kind="function", parse="infer"), _w(W_ASYNC, kind="function", parse="function"),
+        _w(W_SQLA_ID, kind="sqlalchemy", parse="sqlalchemy", emit="json_schema", tpl="{name}"),
         _w(W_CLASS, emit="function"),
         _w(W_CLASS, emit="pydantic"),
         _w(W_CLASS, emit="argparse", infer=True),
@@ -1032,13 +1254,24 @@ def cli_matrix(chk: core.Check):
     n = 320 if chk.quick else 4000
     tmp = tempfile.mkdtemp(prefix="c19run_", dir="/tmp")
     try:
-        cases = witness_cases()
+        cases, pairs = [], []
+
+        def add_case(c, want_twin):
+            cases.append(c)
+            t = twin_of(c) if want_twin else None
+            if t is not None:
+                pairs.append((len(cases) - 1, len(cases)))
+                cases.append(t)
+
+        for c in witness_cases():
+            add_case(c, c.pop("_twin", False))
         cdir = core.VERIF / "corpus" / "C19"
         if cdir.is_dir():
             for f in sorted(cdir.glob("*.json")):
                 cases.append(json.loads(f.read_text())["case"])
         for k in range(n):
-            cases.append(gen_cli_case(r, k))
+            c = gen_cli_case(r, k)
+            add_case(c, r.random() < 0.35)
         for c in cases:
             c["tmp"] = tmp
         results = core.pmap(run_cli_case, cases, chunksize=4)
@@ -1047,7 +1280,7 @@ def cli_matrix(chk: core.Check):
     reqs = [gen_request(c, x) for c, x in zip(cases, results) if not x.get("timeout")]
     model = iter(core.model_batch(reqs))
     n_dis = n_out = n_contract = n_improper = 0
-    dist = {"emit": {}, "parse": {}, "input": {}, "outcome": {}, "entries": {}, "flags": {}, "oracle": {}, "output_argument": {}}
+    dist = {"emit": {}, "parse": {}, "input": {}, "outcome": {}, "entries": {}, "flags": {}, "oracle": {}, "output_argument": {}, "source_entries_read_back": {}}
 
     def bump(k, v):
         dist[k][str(v)] = dist[k].get(str(v), 0) + 1
@@ -1056,7 +1289,7 @@ def cli_matrix(chk: core.Check):
         key = case_key(c)
         if x.get("timeout"):
             # termination is C11's property; a CLI run that does not finish in 120 s under load is a harness problem (exit 2), not a violation of C19
-            raise core.HarnessError("`python -m cdd gen` did not finish within 120 s on %s" % json.dumps(key)[:600])
+            raise core.HarnessError("`python -m cdd gen` did not finish within 120 s or was killed (%s) on %s" % (x.get("why", "timeout"), json.dumps(key)[:600]))
         mo = next(model)
         guarded = bool(c["exists"] or c.get("out_spelling"))
         chk.count(("cli", json.dumps(key, sort_keys=True)), x["rc"] == 0 or guarded)
@@ -1090,16 +1323,32 @@ def cli_matrix(chk: core.Check):
                 if got != e:
                     n_contract += 1
                     chk.disagreement("C19 correspondence: emitters' naming contract (GenModule.symbolName)", {"case": key, "entry": w["name"]}, got, e)
-        for sig, what in oracle(c, x):
+        with open(os.devnull, "w") as dn, contextlib.redirect_stdout(dn), contextlib.redirect_stderr(dn):  # cdd's parsers print failed type probes
+            found = oracle(c, x)
+        for sig, what in found:
             chk.failure(sig, what, {"case": key})
         if x["rc"] == 0 and not guarded:
             bump("oracle", "written output examined")
+            for _, tk, _n in oracle_entries(c):
+                bump("source_entries_read_back", "%s (--parse %s)" % (tk, "infer" if c["parse"] == "infer" else "explicit"))
             if c["infer"] and c["emit"] != "json_schema":
                 bump("oracle", "imports-cover clause evaluated (inference succeeded)")
         elif guarded:
             bump("oracle", "guard clause evaluated")
         if x["rc"] == 0 and not guarded and c["emit"] != "json_schema":
             chk.sample({"args": cli_args(c, "inp.py", "out.py", "imps.py" if c["imports_file"] else None), "output_head": x["out"][:300]}, limit=3)
+    # `--parse infer` and the explicit kind it should arrive at write the same file
+    n_pairs = 0
+    for i, j in pairs:
+        xi, xj = results[i], results[j]
+        if xi.get("rc") == 0 and xj.get("rc") == 0:
+            n_pairs += 1
+            if xi["out"] != xj["out"]:
+                c = cases[i]
+                chk.failure({"kind": "infer-vs-explicit", "emit": c["emit"], "family": "sqlalchemy" if c["emit"] in SQL else c["emit"], "input": c["kind"], "explicit": cases[j]["parse"]},
+                            "--parse infer and --parse %s write different modules for the same input" % cases[j]["parse"], {"case": case_key(c), "twin_parse": cases[j]["parse"]})
+    bump("oracle", "infer-vs-explicit pairs compared (both succeeded)")
+    dist["oracle"]["infer-vs-explicit pairs compared (both succeeded)"] = n_pairs
     chk.oblige("correspondence: real CLI `python -m cdd gen` = GenModule.gen + mainGen on %d runs (%d outside the model)" % (len(cases), n_out),
                "correspondence", n_dis == 0, "%d disagreements" % n_dis)
     chk.oblige("correspondence: emitted symbol names = GenModule.symbolName", "correspondence", n_contract == 0, "%d disagreements" % n_contract)
@@ -1166,7 +1415,18 @@ def replay(path: str) -> int:
         print("replay: HOME = cwd = a temp dir holding models.py (sentinel), sub/, link.py -> models.py%s" % ("; {abs} = that dir" if "{abs}" in c["out_spelling"] else ""))
     print("replay: python -m cdd gen %s -> rc=%s %s" % (" ".join(cli_args(c, c.get("json_basename") or "inp.py", c.get("out_spelling") or "out.py", "imps.py" if c.get("imports_file") else None)),
                                                        x.get("rc"), x.get("exc") or ""))
-    fails = oracle(c, x)
+    with open(os.devnull, "w") as dn, contextlib.redirect_stdout(dn), contextlib.redirect_stderr(dn):
+        fails = oracle(c, x)
+    if rp.get("twin_parse"):
+        tmp = tempfile.mkdtemp(prefix="c19replay_", dir="/tmp")
+        try:
+            y = run_cli_case(dict(c, parse=rp["twin_parse"], tmp=tmp))
+        finally:
+            shutil.rmtree(tmp, ignore_errors=True)
+        print("replay: the same with --parse %s -> rc=%s %s" % (rp["twin_parse"], y.get("rc"), y.get("exc") or ""))
+        if x.get("rc") == 0 and y.get("rc") == 0 and x["out"] != y["out"]:
+            fails.append(({"kind": "infer-vs-explicit", "explicit": rp["twin_parse"]}, "--parse %s and --parse %s write different modules:\n--- %s\n%s\n--- %s\n%s"
+                          % (c["parse"], rp["twin_parse"], c["parse"], x["out"][:600], rp["twin_parse"], y["out"][:600])))
     for sig, what in fails:
         print("  property fails: %s   %s" % (what, json.dumps(sig, sort_keys=True)))
     if not fails:
